@@ -225,10 +225,28 @@ def mpls_main_loop(self):
 # --------------------------------------------------------------------------------------------- CfER
 @contract('droop.rules.cfer.Rule.count', props=['C01', 'C09'], site_props=['C02', 'C04', 'C06', 'C07'], ledger=True)
 def cfer_count(self: 'any_rule'):
-    "CfER (fixed-point arithmetic): counter-level contract and the vote ledger"
+    "CfER without batch exclusions (rule 'cfer'; fixed-point arithmetic): counter-level contract and the vote ledger"
     E = self.E
     requires(count_entry(E))
     requires(ledger_entry(E))
+    requires(not_(truthy(self.defeat_batch)))
+    ensures(ghost('nH') == 0, name='every candidate is decided: nobody is left hopeful')
+    ensures(ghost('nP') == 0, name='no transfer is left pending')
+    ensures(ghost('nW') == old(ghost('nW')), name='withdrawn candidates never change')
+    ensures(ghost('nE') >= E.electionProfile.nSeats, name='the seats are filled (W2)')
+    modifies_all(Candidate, 'state', 'pending', 'vote')
+    modifies_all(Ballot, 'index', 'weight')
+    modifies(E, 'quota', 'exhausted', 'round', 'surplus')
+    modifies_ghost('nH', 'nE', 'nD', 'nP', 'nlog', 'lasttag', 'lastmsg', 'T', 'G')
+
+
+@contract('droop.rules.cfer.Rule.count', props=['C01', 'C09'], site_props=['C02', 'C04', 'C06', 'C07'], ledger=True)
+def cfer_batch_count(self: 'any_rule'):
+    "CfER with 10059(k) batch exclusions (rule 'cfer-batch'): the same contract (two contracts so that the two variants are generated in parallel)"
+    E = self.E
+    requires(count_entry(E))
+    requires(ledger_entry(E))
+    requires(truthy(self.defeat_batch))
     ensures(ghost('nH') == 0, name='every candidate is decided: nobody is left hopeful')
     ensures(ghost('nP') == 0, name='no transfer is left pending')
     ensures(ghost('nW') == old(ghost('nW')), name='withdrawn candidates never change')
